@@ -90,6 +90,28 @@ def impl_lines(case):
 	return [parserutil.run('server', [stream(case)])]
 
 
+def expected_canonical(target):
+	"""the canonical path of an origin-form target by an independent reading of RFC 3986 (decode the path once, collapse slash
+	runs, remove dot segments); None when the target is not a plain origin-form path in UTF-8"""
+	import re
+	import rfc3986
+	if not target.startswith(b'/') or target.startswith(b'//'):
+		return None
+	raw = target.split(b'?')[0].split(b'#')[0]
+	if re.search(rb'%(?![0-9A-Fa-f]{2})', raw) or re.search(rb'%2[fF5]', raw):
+		return None      # an encoded slash or percent sign: the path text keeps an escape there (C10), no plain reading
+	try:
+		text = re.sub(rb'%([0-9A-Fa-f]{2})', lambda m: bytes([int(m.group(1), 16)]), raw).decode('utf-8')
+	except UnicodeDecodeError:
+		return None
+	text = re.sub(u'/{2,}', u'/', text)
+	return rfc3986.remove_dot_segments(text)
+
+
+def canonical(p):
+	return p.startswith(u'/') and u'.' not in p.split(u'/') and u'..' not in p.split(u'/') and u'' not in p.split(u'/')[1:-1] and u'//' not in p
+
+
 def oracle(case):
 	s = stream(case)
 	sm = parserutil.new_sm('server')
@@ -97,7 +119,27 @@ def oracle(case):
 		out = sm.parse(s)
 	except Exception as e:
 		name = exc_name(e)
-		if name in ('status:301', 'status:400', 'status:505', 'status:411', 'status:501'):
+		if name == 'status:301':
+			# "a 301 to the canonical path": the Location is a path in the sanitised form, and asking for it is not
+			# answered by another redirect
+			loc = e.headers.get('Location')
+			lp = loc.split(u'?')[0].split(u'#')[0] if loc is not None else None
+			if lp is None or not canonical(lp):
+				return {'what': '301 to %r, which is not a canonical path' % (loc,), 'stream': s.decode('latin-1'), 'finding': None}
+			exp = expected_canonical(case[1])
+			if exp is not None:
+				from httoop.uri import URI
+				got = URI(loc.encode('utf-8')).path
+				if got != exp:
+					return {'what': '301 to %r (path %r), the canonical path of the request is %r' % (loc, got, exp), 'stream': s.decode('latin-1'), 'finding': None}
+			again = parserutil.new_sm('server')
+			try:
+				again.parse(b'GET ' + loc.encode('utf-8') + b' HTTP/1.1\r\nHost: h\r\n\r\n')
+			except Exception as e2:
+				if exc_name(e2) == 'status:301':
+					return {'what': 'the Location %r of the 301 is itself answered with a 301 to %r' % (loc, e2.headers.get('Location')), 'stream': s.decode('latin-1'), 'finding': None}
+			return None
+		if name in ('status:400', 'status:505', 'status:411', 'status:501'):
 			return None
 		return {'what': 'parse raised %s' % name, 'stream': s.decode('latin-1'), 'finding': None}
 	for req, _resp in out:
